@@ -56,3 +56,9 @@ Theorem C08_admissible_exists_iff : forall es nodes src tgt via avoid,
   exists p, (length p <= S nodes)%nat /\ path_ok es src tgt via avoid p = true.
 Proof. exact admissible_exists_iff. Qed.
 Print Assumptions C08_admissible_exists_iff.
+
+(* negated sequences: inverses of the members in reverse order undo the sequence (and the order matters) *)
+Theorem C08_negated_sequence_is_inverse : forall (P : Type) (inv : (P -> P) -> (P -> P)) (fs : list (P -> P)),
+  (forall f, In f fs -> forall p, inv f (f p) = p) -> forall p, compose_all (neg_seq inv fs) (compose_all fs p) = p.
+Proof. intros P. exact (@neg_seq_inverse P). Qed.
+Print Assumptions C08_negated_sequence_is_inverse.
